@@ -257,17 +257,26 @@ class PathModel:
         return f'<Path {self.s!r}>'
 
 
-class PathlibModel:
-    _pyvc_model_class = True
-    PurePath = pathlib.PurePath
-
-    @staticmethod
-    @model
-    def Path(*a):
+class _PathType(type):
+    def __call__(cls, *a):
         from ..core import SStr
         if len(a) == 1 and isinstance(a[0], (SStr, OpaqueValue, PathModel)):
             return a[0] if isinstance(a[0], PathModel) else PathModel(a[0])
         return pathlib.Path(*a)
+
+
+class PathClass(metaclass=_PathType):
+    _pyvc_model = True
+
+    @staticmethod
+    def _isinstance(x):
+        return isinstance(x, (PathModel, pathlib.PurePath))
+
+
+class PathlibModel:
+    _pyvc_model_class = True
+    PurePath = pathlib.PurePath
+    Path = PathClass
 
 
 class Recorder:
